@@ -445,4 +445,32 @@ example : let r : RuntimeResources := { Cpu := 100#64, Memory := 0#64, Millis :=
           (r.Merge r1).Dominates { Cpu := 99#64, Memory := 49#64, Millis := 6#64 } = true ∧
           (r.Merge r1).Dominates { Cpu := 99#64, Memory := 50#64, Millis := 6#64 } = false := by decide
 
+/-! ## laws of the regenerated saturating `Remove` -/
+
+/-- `Remove` never hands back more than there was -/
+theorem remove_le_self (h u : RuntimeResources) : cntLe (h.Remove u) h := by
+  unfold cntLe; rw [Remove_Cpu, Remove_Memory, Remove_Millis]; omega
+
+/-- nothing consumed, nothing removed -/
+theorem remove_zero (h : RuntimeResources) :
+    h.Remove { Cpu := 0#64, Memory := 0#64, Millis := 0#64 } = h := by
+  apply res_ext <;> apply BitVec.eq_of_toNat_eq <;>
+    simp only [Remove_Cpu, Remove_Memory, Remove_Millis, BitVec.toNat_ofNat, Nat.zero_mod, Nat.sub_zero]
+
+/-- the more was consumed, the less is left: what a child can be given is antitone in the parent's
+consumption at the moment of creation -/
+theorem remove_antitone (h u u' : RuntimeResources) (hu : cntLe u u') : cntLe (h.Remove u') (h.Remove u) := by
+  unfold cntLe at *; simp only [Remove_Cpu, Remove_Memory, Remove_Millis]; omega
+
+/-- removing in two steps is removing the (unbounded) sum: saturation at 0 cannot be used to get
+budget back by splitting a charge -/
+theorem remove_remove (h a b : RuntimeResources) :
+    ((h.Remove a).Remove b).Cpu.toNat = h.Cpu.toNat - (a.Cpu.toNat + b.Cpu.toNat) ∧
+    ((h.Remove a).Remove b).Memory.toNat = h.Memory.toNat - (a.Memory.toNat + b.Memory.toNat) ∧
+    ((h.Remove a).Remove b).Millis.toNat = h.Millis.toNat - (a.Millis.toNat + b.Millis.toNat) := by
+  simp only [Remove_Cpu, Remove_Memory, Remove_Millis]; omega
+
+example : let h : RuntimeResources := { Cpu := 100#64, Memory := 5#64, Millis := 0#64 }
+          (h.Remove { Cpu := 30#64, Memory := 9#64, Millis := 1#64 }) = { Cpu := 70#64, Memory := 0#64, Millis := 0#64 } := by decide
+
 end GoluaVerif.Props.C07
